@@ -183,7 +183,7 @@ CHECKS = {
               "reached through the serial fallback transaction and (reject) the real in-memory store behind a TransactionStore wrapper that rejects one operation (does not apply it, reports OpResult.Err). A fault-free dry run counts the store calls "
               "(Get, Set, lazy Data(), lazy ReadDirNames()); then the history is re-run once per call index (all of them, at most 200) with that call failing with an error that matches no sentinel. Oracle: the FS operation during which the fault fires "
               "returns an error -- always if the failing call is a Set, otherwise unless its result equals the fault-free result; nothing panics or hangs during or after; at the end every key the store really holds is found by a fresh Stat/ReadFile with the same "
-              "kind/perm/bytes and everything the FS lists is in the store. non-trivial = >=3 faults fired in a history with >=1 mutating step"),
+              "kind/perm/bytes and everything the FS lists is in the store. Construction is judged as an operation too: per case, keyvalue.NewFS is run with store call 1..4 failing over a fresh store and over the store the fault-free history left; it fails, or hands out a file system whose root answers and which shows the tree the store holds. non-trivial = >=3 faults fired in a history with >=1 mutating step"),
         assumptions=["one failing store call per run", "the plain store is lazy (Data/ReadDirNames evaluated on first use) like examples/s3, which cannot be built offline"],
         legs=[
             dict(name="plain", run="^TestPlain$", quick=150, thorough=1500, shards=6, quick_shards=6),
@@ -195,10 +195,10 @@ CHECKS = {
         pkg="c10", level="exploration",
         rule=("each case = a generated source tree (mem.FS; <=3 directories, <=6 files with sizes from {0,1,511,512,513,1024,1500,5000} around the 512-byte copy buffer, assorted modes), a RetainData policy (default/never/by name/by size), "
               "a cache store (mem.FS or one exposing only OpenFile+Mkdir) and a source flavour (handles with or without Seek); then a rapid state machine of open(name) into 3 handle slots (files, directories, missing names; repeated and interleaved), "
-              "read(n), seek, handle stat, paged handle readdir, close, Stat(name), ReadDir(name). Every call is mirrored on a twin handle / call on an identical source: names, kinds, sizes, modes, bytes and EOF position must agree; a counting wrapper proves that "
+              "read(n), seek, handle stat, paged handle readdir, close, closedops (Close, then Stat, Read or ReadDir and a second Close on the closed handle: cache and source must both refuse or both answer), Stat(name), ReadDir(name); an eighth of the names are invalid spellings of served names. Every call is mirrored on a twin handle / call on an identical source: names, kinds, sizes, modes, bytes and EOF position must agree; a counting wrapper proves that "
               "an Open of an already cached retained file, and reads through handles of such later opens, never reach the source. non-trivial = a retained file >512 B opened again after caching, or a directory read in >=2 pages"),
         assumptions=["the source does not change (the cache's documented precondition)", "modification times are not compared"],
-        legs=[dict(name="cache", run="^TestCache$", quick=600, thorough=6000, shards=8)],
+        legs=[dict(name="cache", run="^TestCache$", quick=2400, thorough=12000, shards=8)],
     ),
     "C11": dict(
         pkg="c11", level="fault_enumeration",
